@@ -1,8 +1,102 @@
-/- Driver handlers for area `signers` (stub: replace `handle`). -/
-import VDriver.Util
-namespace V.Driver.SignersOps
-open V V.Driver
+/- Driver handlers for area `signers` (C06): VerifyEventSignatures against a scripted verifier.
 
-def handle (_op : String) (_args : Array String) : Option String := none
+   ops:
+     verify <ver> <hex id>:<hex json> <script>   -> ok | rej | panic:…          (+ specification)
+     trace  <ver> <hex id>:<hex json> <script>   -> asked:<sorted requests "hexserver@ts/strict/redacted"> | none | -
+   script = "<hexserver>=<0|1>,...;<default 0|1>;<verifier error 0|1>"
+-/
+import VDriver.Util
+import VModel.Signers
+namespace V.Driver.SignersOps
+open V V.Json V.Driver V.Signers
+
+def parseEvArg (ver : Bytes) (arg : String) : Option Event :=
+  match arg.splitOn ":" with
+  | [idh, jsh] =>
+    match unhex idh, unhex jsh with
+    | some id, some js =>
+      match parse js with
+      | some p => match p.toJVal with
+        | .obj kvs => some { ver := ver, eventID := id, obj := kvs }
+        | _ => none
+      | none => none
+    | _, _ => none
+  | _ => none
+
+structure Script where
+  table : List (Bytes × Bool)
+  dflt : Bool
+  verr : Bool
+
+def parseScript (s : String) : Option Script :=
+  match s.splitOn ";" with
+  | [t, d, v] =>
+    let entries : Option (List (Bytes × Bool)) :=
+      if t == "-" || t == "" then some [] else
+      (t.splitOn ",").mapM (fun e =>
+        match e.splitOn "=" with
+        | [h, b] => (unhex h).map (fun x => (x, b == "1"))
+        | _ => none)
+    entries.map (fun es => ⟨es, d == "1", v == "1"⟩)
+  | _ => none
+
+def Script.valid (sc : Script) (server : Bytes) : Bool :=
+  match sc.table.find? (fun e => e.1 == server) with
+  | some e => e.2
+  | none => sc.dflt
+
+def insertSorted (x : String) : List String → List String
+  | [] => [x]
+  | y :: ys => if x < y then x :: y :: ys else if x == y then y :: ys else y :: insertSorted x ys
+
+def sortDedup (xs : List String) : List String := xs.foldr insertSorted []
+
+def showReqs (rs : List (Bytes × Nat × Bool)) : String :=
+  if rs.isEmpty then "-" else
+  "asked:" ++ String.intercalate "," (sortDedup (rs.map (fun r => hex r.1 ++ "@" ++ toString r.2.1 ++ "/" ++ (if r.2.2 then "s1" else "s0") ++ "/r1")))
+
+/-- the standard `userIDForSender`: `spec.NewUserID(sender, true)`; outer `none` = not modelled -/
+def senderDomain (e : Event) : Option (Except Err (Option Bytes)) :=
+  match parseUserID? e.sender with
+  | none => none
+  | some none => some (.error (errRej "sender"))
+  | some (some u) => some (.ok (some u.domain))
+
+def handle (op : String) (args : Array String) : Option String :=
+  match op, args.toList with
+  | opn, [ver, ev, script] =>
+    if opn != "verify" && opn != "trace" then none else
+    let v := strBytes ver
+    match versionRow? v, parseEvArg v ev, parseScript script with
+    | some row, some e, some sc =>
+      if v == pseudoIDVersion then some "skip:pseudo-id room version (sender-key self-verification and mxid_mapping not modelled)"
+      else match senderDomain e with
+      | none => some "skip:sender domain is an IPv6 literal (server-name validation: C17)"
+      | some sd =>
+        let specSender : Option Bytes := match sd with
+          | .ok (some d) => some d
+          | _ => none
+        let req := Spec.required ver e specSender
+        if opn == "verify" then
+          let m := match verifyEventSignatures row e sd (fun r => sc.valid r.server) sc.verr with
+            | .ok _ => "ok"
+            | .error (.panic s) => "panic:" ++ s
+            | .error _ => "rej"
+          let s := match req with
+            | .unspecified => "unspecified:membership-unreadable"
+            | .undeterminable => "rej"
+            | .servers l => if sc.verr then "unspecified:verifier-error" else if l.all sc.valid then "ok" else "rej"
+          some (m ++ "\t" ++ s)
+        else
+          let m := match requests row e sd with
+            | .ok rs => showReqs (rs.map (fun r => (r.server, r.ts, r.strict)))
+            | .error (.panic s) => "panic:" ++ s
+            | .error _ => "none"
+          let s := match req with
+            | .servers l => showReqs (l.map (fun x => (x, e.originServerTS, Spec.strictFrom5 ver)))
+            | _ => "unspecified:no-required-set"
+          some (m ++ "\t" ++ s)
+    | _, _, _ => some "bad-op"
+  | _, _ => none
 
 end V.Driver.SignersOps
